@@ -262,7 +262,7 @@ impl<'tcx> Interp<'tcx> {
             }
             BinOp::Div => Val::Int(ops::div(a, b, ty)),
             BinOp::Rem => Val::Int(ops::rem(a, b, ty)),
-            BinOp::BitAnd => Val::Int(ops::bitand(a, b, ty)),
+            BinOp::BitAnd => Val::Int(ops::bitand_split(a, b, ty, &at).unwrap_or_else(|| ops::bitand(a, b, ty))),
             BinOp::BitOr => Val::Int(ops::bitor_disjoint(a, b, ty, &at).unwrap_or_else(|| ops::bitor(a, b, ty))),
             BinOp::BitXor => Val::Int(ops::bitxor(a, b, ty)),
             BinOp::Shl | BinOp::ShlUnchecked => Val::Int(ops::shl(a, b, ty, &at)),
